@@ -322,10 +322,17 @@ fn build_forward_request(req: &ParsedRequest) -> Result<Vec<u8>> {
     );
     new_request.extend_from_slice(request_line.as_bytes());
 
-    let host_header_value = if req.port == 80 || req.port == 443 {
-        req.host.clone()
+    // An IPv6 literal must stay bracketed in the Host header ("::1:8080" is not a
+    // host:port pair)
+    let host_text = if req.host.contains(':') {
+        format!("[{}]", req.host)
     } else {
-        format!("{}:{}", req.host, req.port)
+        req.host.clone()
+    };
+    let host_header_value = if req.port == 80 || req.port == 443 {
+        host_text
+    } else {
+        format!("{}:{}", host_text, req.port)
     };
 
     let mut host_written = false;
